@@ -290,7 +290,7 @@ abbrev Rx := Nat → Bytes → Option RxMatch     -- rule index (in `Config.rule
 
 structure Mapped where
   ruleIdx : Nat
-  name : Option Bytes          -- expanded name; none = outside the modelled Sprintf fragment
+  name : Option Bytes          -- expanded name; none = outside the modelled fragment (glob: Sprintf verbs; regex: name runes)
   labels : List (Bytes × Option Bytes)
   deriving Repr, DecidableEq
 
@@ -319,8 +319,8 @@ def lookupRegex (cfg : Config V) (rx : Rx) (name : Bytes) (ty : Nat) : Option Ma
     | none => none
     | some m =>
       if (match r.matchMetricType with | some t => t != ty | none => false) then none else
-      some { ruleIdx := i, name := some (rxExpand m r.name.length r.name),
-             labels := r.labels.map fun (k, t) => (k, some (rxExpand m t.length t)) })
+      some { ruleIdx := i, name := rxExpand m r.name.length r.name,
+             labels := r.labels.map fun (k, t) => (k, rxExpand m t.length t) })
 
 /-- which machinery `GetMapping` consults. `fsmLive`/`regexLive` are the mapper's `doFSM`/`doRegex`
     fields; after a (re)load they are `cfg.doFSM` and — only meaningful when `doFSM` —
